@@ -104,3 +104,30 @@ def use_as_input_of_derivations(api, c, rng):
         outcome_of(so[1].add_prefix, r0.prefix, r0.uri_prefix, ["zzsyn2"], [r0.uri_prefix + "yy_"], merge=True)
     probe.S.counters["wl:asked-again-after-being-derived-from"] += 1
     return ["zzp", "zzsyn", "zzsyn2", r0.uri_prefix + "zz_1", r0.uri_prefix + "yy_1", r0.prefix, r0.uri_prefix + "1"]
+
+
+def scale_leg(ctx, rng, d, modes=False, every=40, g=0):
+    """One case in `every`: the same query families on a converter far above any plausible fast-path threshold, batch
+    size or slice limit (150 / 400 / 1100 records, deep URI-prefix tree, synonyms), built by a random route.  The
+    always-on query monitors compare every answer with the linear-scan model."""
+    if ctx.tier == "thorough":
+        every *= 4  # larger maps, fewer of them
+    if g % every != every - 1:
+        return
+    api = ctx.api
+    n = rng.choice([150, 400, 1100] if ctx.tier == "thorough" else [120, 260])
+    recs = gen.large_records(rng, n, d)
+    with probe.monitor_mode():  # the build itself is not the subject here (and its hooks cost O(n) per registration)
+        c, how = gen._build(api, recs, d, rng, rng.choice(["ctor", "incremental", "mixed", "grown-by-merge"]))
+    probe.S.counters[f"wl:at-scale:n{n}:{how}"] += 1
+    for r in rng.sample(recs, k=10 if ctx.tier == "thorough" else 4):
+        for p in spec.all_p(r):
+            core_queries(c, p + d + rng.choice(["1", "", "a" + d + "b"]), modes=modes)
+            outcome_of(c.expand_pair, p, "1")
+            outcome_of(c.expand_pair_all, p, "1")
+            outcome_of(c.standardize_prefix, p)
+        for u in spec.all_u(r):
+            core_queries(c, u + rng.choice(["1", "", "x/y"]), modes=modes)
+            core_queries(c, u[:-1], modes=False)
+    core_queries(c, "nope" + d + "1", modes=modes)
+    probe.note_key(f"at-scale:n{n}", True)
